@@ -113,6 +113,26 @@ def saved_problems(tr, alias='default'):
                 if (e[2].get('app'), label) not in recorded:
                     out.append('evolved was sent, but evolution %s.%s (announced as applied) is not recorded'
                                % (e[2].get('app'), label))
+    # ... and the signature the run arrived at is the one that is stored: it describes the installed models
+    try:
+        from django_evolution.diff import Diff
+        from django_evolution.models import Version
+        from django_evolution.signature import ProjectSignature
+        stored = Version.objects.using(alias).order_by('-id')[0].signature
+        target = ProjectSignature.from_database(alias)
+        mine = set(evorig.APPS + evorig.EXTRA)
+        for a in target.app_sigs:
+            if a.app_id not in mine:
+                continue
+            b = stored.get_app_sig(a.app_id)
+            if b is None and list(a.model_sigs):
+                out.append('evolved was sent, but the stored signature has no entry for the installed app %s' % a.app_id)
+            elif b is not None and (a.diff(b) if hasattr(a, 'diff') else None):
+                d = a.diff(b)
+                if d.get('changed') or d.get('deleted'):
+                    out.append('evolved was sent, but the stored signature of app %s is not that of its models' % a.app_id)
+    except Exception as e:       # reading the stored signature is not what is under test here
+        out.append('the stored signature cannot be read after evolved: %s' % type(e).__name__)
     return out
 
 
@@ -161,7 +181,7 @@ def run(ctx):
         r0 = evorig.run_evolver(trace=tr0)
         if r0[0] != 'ok':
             continue
-        for p in check_trace(tr0, 'ok'):
+        for p in check_trace(tr0, 'ok') + saved_problems(tr0):
             ctx.fail(None, 'fresh install: ' + p, {'spec0': case['spec0'], 'signals': tr0.signals()})
         # nothing to do
         tr1 = evorig.Trace()
